@@ -506,6 +506,8 @@ def _t3_agp(L, fa, pa, w, r):
             L.check(ok, "T3", f"AGP:gap:{want[1]}", f"column {k + 1 if k is not None else '?'} carries row.{want[1]}", f"reader takes Gap.{want[1]} from {src}, writer column there is {wc[k] if k is not None and k < len(wc) else None}", pa.loc(gap_rows[0]["node"]))
         # discriminator: the reader's gap-row path condition, evaluated for the writer's constant in that column
         k = _disc_column(gap_rows[0]["pc"])
+        if k is None:
+            raise AnalysisError("parse_agp: how the reader tells gap rows from sequence rows (a test of one column against constants) is not understood")
         okd = False
         if k is not None and k < len(wc) and wc[k][0] == "const":
             okd = all(_pc_under(g["pc"], k, wc[k][1]) is True for g in gap_rows[:1])
@@ -615,7 +617,48 @@ def _skeleton_matches(pat, template, func):
 # ------------------------------------------------------------------------------ T4
 
 
+def _t4_probes(L, parser: Func, lp, agp):
+    """Every data line yields a row or an error: one iteration of the line loop is evaluated by constant propagation on probe
+    data lines.  -> True when every probe was decided (then the textual reading of the skip guards is not needed)."""
+    from ..finite import run_paths as _run_paths
+
+    lv = lp.target.id
+    if agp:
+        probes = [
+            "S1\t1\t100\t1\tW\tctg1\t1\t100\t+\n", "S1\t101\t300\t2\tU\t200\tscaffold\tyes\tproximity_ligation\n",
+            "S1\t301\t400\t3\tW\tctg2\t5\t104\t-\tPainted\tX\n", "S2\t1\t10\t1\tN\t10\tscaffold\tyes\t\n",
+            "S2\t11\t20\t2\tW\tctg3\t1\t10\t?\n", "S3\t1\t100\t1\tA\tacc.1\t1\t100\t+\n", "S3\t101\t200\t2\tD\tacc.2\t1\t100\t-\n",
+            "S3\t201\t300\t3\tF\tacc.3\t1\t100\t+\n", "S3\t301\t400\t4\tP\tacc.4\t1\t100\t+\n", "S4\t1\t5\t1\tO\tacc.5\t1\t5\t+\r\n",
+        ]
+    else:
+        probes = ["?\tctg1:1-100\tS1\tPLUS\n", "?\tctg2:5-104\tS1\tMINUS\tPainted\n", "GAP\tTYPE-2\t200\n", "GAP\tTYPE-3\t100\n", "?\tc:1-2\tS2\tUNKNOWN\r\n"]
+    all_decided = True
+    for pb in probes:
+        res = _run_paths(lp.body, {lv: pb}, loop_iters=(0, 1))
+        for r in res:
+            if r["path"].status == "raise":
+                continue
+            adds = [c for e in r["path"].events if e.kind == "stmt" for c in [e.node, *walk_shallow(e.node)] if isinstance(c, ast.Call) and isinstance(c.func, ast.Attribute) and c.func.attr == "add_row"]
+            if adds:
+                continue
+            # a path on which this data line produces neither a row nor an error
+            state_only = all(not any(isinstance(x, ast.Name) and x.id == lv for x in ast.walk(c)) and "fields" not in norm(c) for c, _ in r["unknown_conds"])
+            if r["unknown_conds"] and not state_only:
+                all_decided = False
+                continue
+            L.fail(
+                "T4", parser.short + ":data-line",
+                f"the data line {pb!r} is consumed without producing a row or an error ({r['path'].describe()[:90]}): a line is silently skipped, so the parsed assembly lacks a row that the file has",
+                parser.loc(lp), witness={"line": pb},
+            )
+            return True
+    if all_decided:
+        L.ok("T4", parser.short + ":data-line", f"each of {len(probes)} probe data lines yields a row or an error on every path (constant propagation through the loop body)", parser.loc(lp))
+    return all_decided
+
+
 def _t4(L, parser: Func, lp, agp):
+    decided_by_probes = _t4_probes(L, parser, lp, agp)
     pe = PathEnum((0, 1), exc_edges=False)
     n_row = n_skip = 0
     ok, why = True, ""
@@ -634,7 +677,7 @@ def _t4(L, parser: Func, lp, agp):
             comment = any("startswith('#" in t and v for t, v in facts)
             if adds:
                 ok, why = False, "a skipped line also adds a row"
-            if not (blank or comment):
+            if not (blank or comment) and not decided_by_probes:
                 ok, why = False, f"a data line can be skipped silently: path conditions {facts[-3:]} end in 'continue' without the blank/comment guard"
         elif p.status == "fall":
             n_row += 1
@@ -826,8 +869,7 @@ def _t9(repo, L, fmt: Func, prs: Func, w, label):
         n_pr += 1
     if decided:
         L.check(okp, "T9", f"{label}:reader-round-trip", f"the line written for a header text is read back as that text ({n_pr} probe texts, constant propagation through the reader's loop body)", whyp, prs.loc(lp), witness={"prefix": prefix})
-        if not okp:
-            return
+        return  # decided by evaluation: the structural reading of the guards below is only the fallback
     # first guard that matches the written prefix decides
     taken = next(((pre, adds, s) for pre, adds, s in guards if isinstance(pre, str) and prefix.startswith(pre)), None)
     L.check(taken is not None and taken[1], "T9", f"{label}:reader-accepts", f"lines starting {prefix!r} are taken as header lines", f"{label} reader {'skips' if taken else 'does not recognise'} lines starting with the writer's prefix {prefix!r}: header lines are lost on re-parsing", prs.loc(lp))
